@@ -77,10 +77,12 @@ def _alter(rng, value, kind, tol):
         return 'abc'
     if kind == 'text-to-number' and isinstance(value, str) and value not in ERR:
         return 12345
+    if kind == 'to-empty-text' and (num and value or isinstance(value, str) and value not in ERR and value != ''):
+        return ''           # the stored result of a formula like =IF(A1>5,"big","")
     return None
 
 
-KINDS = ['number-beyond', 'number-below', 'text', 'logical', 'error', 'number-to-text', 'text-to-number']
+KINDS = ['number-beyond', 'number-below', 'text', 'logical', 'error', 'number-to-text', 'text-to-number', 'to-empty-text']
 
 
 def reachable(meta, outputs):
